@@ -1,7 +1,7 @@
 #!/usr/bin/env python3
 """Confirms a seeded change produced by an independent sub-agent and records which checks catch it.
 
-usage: eval_seed.py <ID> <N> [--keep <name>]
+usage: eval_seed.py <ID> <N> [--keep <name>] [--own]   (--own: run only the check of the seed's own property)
  reads /tmp/seed/<ID>-out/patchN.diff and demoN.cpp
  1. scratch worktree of /repo HEAD (under /tmp/evalseed), demo on the clean tree must exit 0
  2. apply the patch, build with cmake/ninja, all 12 ctest tests must pass, demo must exit non-zero
@@ -69,8 +69,11 @@ def main():
         env['VERIF_REPO'] = wt
         env['VERIF_EVIDENCE_DIR'] = os.path.join(wt, '_evidence')
         caught, broken = {}, {}
+        own_only = '--own' in sys.argv
         for c in man['checks']:
             p2 = c['property_id']
+            if own_only and p2 != pid[:3]:
+                continue
             r = subprocess.run([os.path.join(VERIF, 'check'), p2, '--tier', 'quick'], capture_output=True, text=True, env=env)
             lines = [l.strip() for l in r.stdout.split('\n') if l.strip().startswith('report:')]
             if r.returncode == 1:
